@@ -14,6 +14,10 @@ CHECKS["C01"] = dict(level="exploration", ref="DESIGN.md §5 C01",
    technique="model-based generated histories (Hypothesis, histories as data with late-bound references) run in lock step against an independent reference tree under three patch placements; full-view comparison after every operation",
    text="Generated search over operation histories with patch boundaries, reopen and discard at arbitrary positions; every history is executed with zero, generated and maximal patch boundaries, so a boundary-dependent result shows as a divergence from the single-tree model. Bounded by history length (<=30 quick, <=120 thorough), tree size and <=~10 containers; sampling, no proof.",
    note=TB + "; the reference tree is validated against plain h5py.File at check start")
+CHECKS["C05"] = dict(level="exploration", ref="DESIGN.md §5 C05",
+   technique="generated source histories + merge + generated follow-up patches; differential merged-vs-overlay-vs-reference-tree, byte digests of source files, user-block field oracle",
+   text="Generated search: every case builds a multi-container source, merges it while open, and checks the merged container (view, identity fields, manifest) and that follow-up patches made on the source apply to the merged container with the same view. Bounded by history length and <=3 follow-ups; sampling.",
+   note=TB)
 NOT_YET = {}
 def main():
     props = [json.loads(l) for l in open(os.path.join(HERE, "properties.jsonl"))]
